@@ -154,6 +154,19 @@ extern "C" void h_misc(void) {
    const ipr::Template& ct = *t;
    vp_assert(&ct.parameters() == &ct.mapping().parameters() && &ct.parameters() == &static_cast<const ipr::Mapping&>(*m).parameters(), 4);
    vp_assert(&ct.result() == &ct.mapping().result() && &ct.result() == &lx.false_value(), 5);
+   {  // the same on a redeclaration (its own mapping, other parameter names), on a secondary template, and on a template declared after another one
+      impl::Mapping* m2 = lx.make_mapping(*w->unit.global_region(), Mapping_level{ 1 });
+      m2->param(*w->N[1], *w->T[0]); m2->param(*w->N[0], *w->T[1]); m2->body = &lx.true_value();
+      unsigned how = vp_pick(3);
+      impl::Template* t2 = how == 0 ? w->unit.global_scope()->make_primary_template(*w->N[2], forall)         // redeclaration of t
+                         : how == 1 ? w->unit.global_scope()->make_secondary_template(*w->N[2], forall)
+                         : w->unit.global_scope()->make_primary_template(*w->N[0], forall);                    // an unrelated template
+      t2->init = m2;
+      const ipr::Template& c2 = *t2;
+      vp_assert(&c2.parameters() == &c2.mapping().parameters() && &c2.parameters() == &static_cast<const ipr::Mapping&>(*m2).parameters(), 10);
+      vp_assert(&c2.result() == &c2.mapping().result() && &c2.result() == &lx.true_value(), 11);
+      vp_assert(&ct.parameters() == &static_cast<const ipr::Mapping&>(*m).parameters() && &ct.result() == &lx.false_value(), 12);      // and the first one is as it was
+   }
    // linkage vs transfer: natural, explicit linkage, explicit convention
    Word<2> lw; lw.make(1); vp_not_reserved_range(lw.buf[0]);
    auto& lk = lx.get_linkage(lw.view());
